@@ -45,6 +45,10 @@ ZOO = {
     "re_slice_with_step": {"attrs": [("Then", "re", r"^slice with step (\w+) (\w+)$")], "slice": S, "step": True},
     # an expression WITHOUT parameters is still an expression (optional text, alternation): not a literal
     "expr_no_params": {"attrs": [("When", "expr", "there is/are (a )cucumber(s) in the basket")]},
+    # a `Result` spelled through a type alias (whatever its name) is still a fallible step: its `Err` must make the step fail
+    "alias_sync_result": {"attrs": [("Given", "lit", "a step returning an aliased result")], "result": True},
+    "alias_async_result": {"attrs": [("When", "re", r"^an async step (\d+) returning an aliased result$")], "args": ["i64"], "async": True, "result": True},
+    "io_result": {"attrs": [("Then", "lit", "a step returning an io result")], "result": True},
 }
 
 
